@@ -176,11 +176,24 @@ def run(ck):
         sim, hub, p1, p2 = v.sim, v.hub, v.p1, v.p2
         phases = ['idle', 'p2-half-open', 'p2-established', 'p1-and-p2-established', 'p2-rekeying']
         for phase in phases:
+            held_auth = None
             if phase == 'p2-half-open':
                 sim.acquire(p2, 0, sport=6100)
-                sim.deliver(0)          # hub answers IKE_SA_INIT; keep the response undelivered for now
+                sim.deliver(0)          # hub answers IKE_SA_INIT
+                if rnd % 2 and sim.net:
+                    sim.deliver(0)      # ... P2 sends IKE_AUTH, which stays in flight while the hostile events arrive
+                    held_auth = sim.net[0].data if sim.net else None
             elif phase == 'p2-established':
                 sim.drain()
+                # the legitimate session that was in progress while the hostile datagrams arrived must have completed
+                ok2 = any(x.state == State.ESTABLISHED and x.child_sas for x in p2.ctl.ike_sas) and \
+                    any(x.state == State.ESTABLISHED and x.child_sas and str(x.peer_addr) == P2A for x in hub.ctl.ike_sas)
+                ck.count('concurrent_session.checked')
+                if not ok2:
+                    ck.violation('concurrent-legitimate-handshake-destroyed-by-unauthenticated-datagrams',
+                                 {'p2': [x.state.name for x in p2.ctl.ike_sas], 'hub': [(x.state.name, str(x.peer_addr)) for x in hub.ctl.ike_sas], 'recent': sim.case['events'][-6:]}, sim.case)
+                else:
+                    ck.count('concurrent_session.completed')
             elif phase == 'p1-and-p2-established':
                 v.bystander(phase)
             elif phase == 'p2-rekeying':
@@ -204,6 +217,14 @@ def run(ck):
             for t in gen.truncations(init, step=5):
                 corpus.append(('truncation', t))
             corpus += oddities(rng, hub.ctl.ike_sas)
+            if held_auth is not None:
+                # corrupted copies of the authentic IKE_AUTH request that is in flight: they carry the SPIs of the handshake in progress
+                for _ in range(24):
+                    b_ = bytearray(held_auth)
+                    pos = rng.randrange(16, len(b_))
+                    b_[pos] ^= 1 << rng.randrange(8)
+                    corpus.append(('corrupted-copy-of-the-ike-auth-in-flight', bytes(b_)))
+                corpus.append(('truncated-copy-of-the-ike-auth-in-flight', held_auth[:len(held_auth) - 7]))
             for cls, d in corpus:
                 src = P2A if rng.random() < 0.6 else (XA if rng.random() < 0.6 else P1A)
                 v.hostile_udp(cls + ('@unconfigured' if src == XA else ''), phase, src, d)
@@ -536,6 +557,7 @@ def verdict(ck):
     ck.floor('hostile steps judged', c['steps.judged'], 5000)
     ck.floor('steps that came back to select', c['steps.back_to_select'], 4000)
     ck.floor('bystander checks', c['bystander.checks'], 20)
+    ck.floor('legitimate handshakes in progress during the hostile events that completed afterwards', c['concurrent_session.completed'], 5)
     ck.floor('authentic-but-malformed steps', sum(v for k, v in c.items() if k.startswith('hostile.authentic')), 300)
     ck.floor('kernel oddities', sum(v for k, v in c.items() if k.startswith('hostile.kernel')), 100)
     ck.floor('sendto faults', c['faults.sendto'], 20)
